@@ -27,6 +27,7 @@ RULE = (
     "the output and every & starts an escape sequence; Markup / __html__ data is output byte for byte; data without special characters renders "
     "identically with autoescape off and on; twin cases: the same text marked safe (Markup) goes through a filter chain first (in an earlier render of the "
     "same environment, or assigned earlier in the same template) and the plain text through the same chain afterwards - the plain output must still be inert. Non-trivial = data contains >= 1 special character and the output is non-empty."
+    " Rounds 5-6 added enumerated families: what missing values print under debug / default / strict-default undefined types with keys taken from hostile data."
 )
 REQUIRED = [
     ("liquid/stringify.py", "to_liquid_string"),
